@@ -217,8 +217,22 @@ fn check_unknown(c: &UnknownComp) -> CaseResult {
     b.bytes[97] = 0;
     let r = open_any(&b.bytes, c.how).map_err(|f| Fail::new("C19/unknown-compression-open-panics", f.msg))?;
     ensure!(r.is_err(), "C19/unknown-compression-opened", "archive with internal compression 'unknown' opened successfully (metadata {}, {} entries)", if c.with_meta { "present" } else { "empty" }, b.tile_entries.len());
-    // writing: every writer refuses Compression::Unknown
-    let mut lg = c.lg.clone();
+    // the same with *empty* sections: no metadata, and a root directory section of length 0 (or of one byte)
+    if !c.with_meta {
+        for root_len in [0u64, 1] {
+            let mut hb = b.bytes.clone();
+            let mut h = crate::spec::SHeader::decode(&hb).map_err(|e| Fail::new("C19/INFRA/harness-self-check", e))?;
+            h.internal = 0;
+            h.root_len = root_len;
+            h.meta_len = 0;
+            h.leaf_len = 0;
+            hb[..127].copy_from_slice(&h.encode());
+            let r = open_any(&hb, c.how).map_err(|f| Fail::new("C19/unknown-compression-open-panics", f.msg))?;
+            ensure!(r.is_err(), "C19/unknown-compression-opened/empty-sections", "archive with internal compression 'unknown', no metadata and a root directory section of {root_len} byte(s) opened successfully");
+        }
+    }
+    // writing: every writer refuses Compression::Unknown (every sixth time with an archive of several hundred entries)
+    let mut lg = if c.how % 6 == 5 { crate::model::logical::large(260 + usize::from(c.how) * 3, u64::from(c.how), 1) } else { c.lg.clone() };
     lg.settings.internal = 0;
     for asyncw in [false, true] {
         let k = if asyncw { "async" } else { "sync" };
